@@ -5688,12 +5688,18 @@ def merge_parts(parts, reassign="voice"):
     # clefs, words and directions also carry a staff (voice numbers start from
     # 1; a missing staff counts as staff 1)
     with_staff = (GenericNote, Words, Direction, Clef)
+    # an object may be on the timeline by its end only (e.g. a slur whose start
+    # is not in the score): iter_all() does not reach it through a start
+    end_only = [
+        [e for e in part.iter_all(mode="ending") if e.start is None] for part in parts
+    ]
     # find the unique number of voices for each part
     unique_voices = [
         np.unique(
             [e.voice for e in part.iter_all(GenericNote, include_subclasses=True)]
+            + [e.voice for e in tails if isinstance(e, GenericNote)]
         )
-        for part in parts
+        for part, tails in zip(parts, end_only)
     ]
     # find the unique number of staves for each part
     unique_staves = [
@@ -5703,8 +5709,13 @@ def merge_parts(parts, reassign="voice"):
                 for cls in with_staff
                 for e in part.iter_all(cls, include_subclasses=True)
             ]
+            + [
+                e.staff if e.staff is not None else 1
+                for e in tails
+                if isinstance(e, with_staff)
+            ]
         )
-        for part in parts
+        for part, tails in zip(parts, end_only)
     ]
     # find the maximum number of voices for each part (voice numbers start from 1)
     maximum_voices = [max(unique_voice, default=1) for unique_voice in unique_voices]
@@ -5767,7 +5778,7 @@ def merge_parts(parts, reassign="voice"):
                     n_previous_staves * 4 + np.arange(1, n_voices + 1),
                 )
             )
-        for e in p.iter_all():
+        for e in list(p.iter_all()) + end_only[p_ind]:
             # full copy the first part and partially copy the others
             # we don't copy elements like duplicate barlines, clefs or
             # time signatures for others
@@ -5776,7 +5787,11 @@ def merge_parts(parts, reassign="voice"):
                 e,
                 el_to_discard,
             ):  # a time multiplier is used to account for different divisions
-                new_start = e.start.t * time_multiplier_per_part[p_ind]
+                new_start = (
+                    e.start.t * time_multiplier_per_part[p_ind]
+                    if e.start is not None
+                    else None
+                )
                 new_end = (
                     e.end.t * time_multiplier_per_part[p_ind]
                     if e.end is not None
